@@ -162,6 +162,10 @@ async def apply_fault(fake, request, act):
             raise transport_error(fake, DROP_KINDS, 'connection dropped', request)
         headers = {'retry-after': '1'} if act[1] == 429 else {}
         return httpx.Response(act[1], headers=headers, json={'status': act[1], 'code': 'fault', 'message': 'fault script'})
+    if kind == 'html':
+        # an error page that is not the service's JSON / XML (a proxy in front of the API)
+        await request.aread()
+        return httpx.Response(act[1], headers={'content-type': 'text/html'}, content=b'<html><body><h1>%d Bad Request</h1></body></html>' % act[1])
     if kind == 'auth':
         await request.aread()
         return httpx.Response(401, json={'status': 401, 'code': 'expired_auth_token', 'message': 'fault script'})
